@@ -4,7 +4,7 @@
    The extracted model is run against the real containers on every ./check (T-cor). *)
 From Coq Require Import ZArith List Bool.
 From MomoCommon Require Import GenPrelude.
-From C14 Require Import PropagationModel Model Proofs Bodies BodiesProofs Crew GenProofs GenProofs2 GenProofs3 GenProofs4 GenProofs5 GenProofs6 GenProofs7.
+From C14 Require Import PropagationModel Model Proofs Bodies BodiesProofs Crew GenProofs GenProofs2 GenProofs3 GenProofs4 GenProofs5 GenProofs6 GenProofs7 GenProofs8.
 From C14 Require Gen_TreeSet Gen_HashSet Gen_HashMultiMap Gen_DataTable Gen_SetCrew Gen_CrewContract.
 From C14 Require Gen_SetCrew2 Gen_SetCrewInl Gen_TreeSet2 Gen_HashSet2 Gen_DataTable2 Gen_MemPool Gen_MemPoolData Gen_MergeToFacts.
 From C14 Require Gen_TreeSet3 Gen_HashSet3 Gen_TableCrew Gen_DataTable3 Gen_HashMultiMap2 Gen_AssignShapes Gen_StdishDecisions.
@@ -1018,3 +1018,62 @@ Theorem C14_arrayic_refinement_nonvacuous :
   Gen_ArrayDataIC.MoveAssign false 1 100 3 9 2 8 2 0 (-1) 7 8 = (2, 7, 2, 9, 8, 0, 1).
 Proof. exact arrayic_refinement_nonvacuous. Qed.
 Print Assumptions C14_arrayic_refinement_nonvacuous.
+
+(* ------------------------------------------------------------------------------------------------------------------ *)
+(* Final round: the CONSISTENCY INVARIANT "null crew => no storage" of the crew-based sets.  It is the premise of
+   C14_gen_tree_move_assign / C14_gen_copy_assign_compositions and excludes the Stuck outcome of the generated Clear /
+   pvDestroy; here it is established and shown to be preserved by every generated operation that writes these fields.
+   tree_cons crew root params := crew = 0 -> root = 0 /\ params = 0;   hash_cons crew buckets := crew = 0 -> buckets = 0. *)
+Theorem C14_cons_established :
+  (forall c r p, c <> 0 -> tree_cons c r p) /\ (forall c b, c <> 0 -> hash_cons c b).
+Proof. exact cons_established. Qed.
+Print Assumptions C14_cons_established.
+
+(* under the invariant the generated pvDestroy / Clear never return Stuck, and Clear preserves the invariant *)
+Theorem C14_cons_clear_total_tree :
+  forall c n r p, tree_cons c r p ->
+    Gen_TreeSet.pvDestroy (Gen_SetCrew.pvIsNull c) n r p = GenPrelude.Ok tt /\
+    exists n' r' p', Gen_TreeSet.Clear (Gen_SetCrew.pvIsNull c) n r p = GenPrelude.Ok (tt, n', r', p') /\ tree_cons c r' p'.
+Proof. exact cons_clear_total_tree. Qed.
+Print Assumptions C14_cons_clear_total_tree.
+
+Theorem C14_cons_clear_total_hash :
+  forall c nb n k b shrink, hash_cons c b ->
+    Gen_HashSet.pvDestroy (Gen_SetCrew.pvIsNull c) n k b = GenPrelude.Ok tt /\
+    exists n' k' b', Gen_HashSet.Clear (Gen_SetCrew.pvIsNull c) nb n k b shrink = GenPrelude.Ok (tt, n', k', b') /\ hash_cons c b'.
+Proof. exact cons_clear_total_hash. Qed.
+Print Assumptions C14_cons_clear_total_hash.
+
+(* preserved by the generated move constructors (new object and source) and Swaps (both objects) *)
+Theorem C14_cons_preserved_move_swap :
+  (forall jc jn jr jp sc sn sr sp, tree_cons sc sr sp ->
+     let '(tc', _, tr', tp', sc', _, sr', sp') := Gen_TreeSet3.MoveCtor jc jn jr jp sc sn sr sp in
+     tree_cons tc' tr' tp' /\ tree_cons sc' sr' sp') /\
+  (forall jc jn jk jb sc sn sk sb, hash_cons sc sb ->
+     let '(tc', _, _, tb', sc', _, _, sb') := Gen_HashSet3.MoveCtor jc jn jk jb sc sn sk sb in
+     hash_cons tc' tb' /\ hash_cons sc' sb') /\
+  (forall ac an ar ap bc bn br bp, tree_cons ac ar ap -> tree_cons bc br bp ->
+     let '(ac', _, ar', ap', bc', _, br', bp') := Gen_TreeSet2.Swap ac an ar ap bc bn br bp in
+     tree_cons ac' ar' ap' /\ tree_cons bc' br' bp') /\
+  (forall ac an ak ab bc bn bk bb, hash_cons ac ab -> hash_cons bc bb ->
+     let '(ac', _, _, ab', bc', _, _, bb') := Gen_HashSet2.Swap ac an ak ab bc bn bk bb in
+     hash_cons ac' ab' /\ hash_cons bc' bb').
+Proof. exact cons_preserved_move_swap. Qed.
+Print Assumptions C14_cons_preserved_move_swap.
+
+(* the premise of C14_gen_tree_move_assign discharged: on consistent objects the composed move assignment never gets stuck
+   destroying the old target, and both objects are consistent afterwards *)
+Theorem C14_cons_move_assign_tree :
+  forall tc tn tr tp sc sn sr sp, tree_cons tc tr tp -> tree_cons sc sr sp ->
+    let '(destroyed, this', src') := tree_move_assign (tc, tn, tr, tp) (sc, sn, sr, sp) in
+    destroyed = GenPrelude.Ok tt /\
+    (let '(c, _, r, p) := this' in tree_cons c r p) /\ (let '(c, _, r, p) := src' in tree_cons c r p).
+Proof. exact cons_move_assign_tree. Qed.
+Print Assumptions C14_cons_move_assign_tree.
+
+(* non-vacuity: the invariant holds for the moved-from state, fails for "null crew with a root", and there Clear IS stuck *)
+Theorem C14_cons_nonvacuous :
+  tree_cons 0 0 0 /\ hash_cons 0 0 /\ ~ tree_cons 0 1 0 /\ ~ hash_cons 0 1 /\
+  Gen_TreeSet.Clear (Gen_SetCrew.pvIsNull 0) 5 1 0 = GenPrelude.Stuck.
+Proof. exact cons_nonvacuous. Qed.
+Print Assumptions C14_cons_nonvacuous.
